@@ -267,6 +267,8 @@ def finish(ctx, level, explanation, technique, checker_cmd):
         'explanation': explanation,
         'technique': technique,
         'per_rule': {'%s:%s' % k: v for k, v in sorted(ctx.counts.items())},
+        'undecided_instances': [{'rule': r, 'config': c, 'instance': str(i), 'reason': (d if isinstance(d, str) else json.dumps(d, default=str))[:240]}
+                                for (r, c, i, v, d) in ctx.obligations if v == UNDECIDED][:80],
         'analysed': ctx.analysed,
         'floors': [{'name': n, 'measured': m, 'minimum': mi} for (n, m, mi) in ctx.floors],
         'positive_controls': [{'name': n, 'fired': f, 'detail': d[:200]} for (n, f, d) in ctx.controls],
@@ -291,3 +293,35 @@ def finish(ctx, level, explanation, technique, checker_cmd):
     with open(os.path.join(VERIF, 'evidence', prop + '.json'), 'w') as f:
         json.dump(ev, f, indent=1, default=str)
     return 1 if nviol else 0
+
+
+def run_witness(ctx, prefixes):
+    """R-WITNESS: run the compile_fail doctests (with their compiling twins) of /verif/witness against /repo's current tree.
+    `prefixes`: names of the witness items relevant to the calling property."""
+    import shutil
+    import tempfile
+    wdir = os.path.join(VERIF, 'witness')
+    td = tempfile.mkdtemp(prefix='glamwitness.')
+    try:
+        lock = os.path.join(REPO, 'Cargo.lock')
+        if os.path.exists(lock) and not os.path.exists(os.path.join(wdir, 'Cargo.lock')):
+            shutil.copy(lock, os.path.join(wdir, 'Cargo.lock'))
+        env = dict(os.environ, CARGO_NET_OFFLINE='true', CARGO_TARGET_DIR=td)
+        pr = subprocess.run(['cargo', '+nightly', 'test', '--doc', '--offline'], cwd=wdir, env=env, stdout=subprocess.PIPE, stderr=subprocess.STDOUT)
+        out = pr.stdout.decode('utf8', 'replace')
+    finally:
+        shutil.rmtree(td, ignore_errors=True)
+    seen = 0
+    for m in re.finditer(r'^test src/lib\.rs - (\w+) \(line (\d+)\)( - compile fail)? \.\.\. (\w+)', out, re.M):
+        name, line, cf, res = m.group(1), m.group(2), m.group(3), m.group(4)
+        if not any(name.startswith(p) for p in prefixes):
+            continue
+        seen += 1
+        inst = '%s:%s%s' % (name, line, ' (compile_fail)' if cf else ' (twin)')
+        if res == 'ok':
+            ctx.holds('R-WITNESS', 'witness', inst)
+        else:
+            ctx.violation('R-WITNESS', 'witness', inst, {'problem': 'witness doctest %s: %s' % (inst, 'the violating program now compiles' if cf else 'the compiling twin no longer compiles')})
+    if seen == 0:
+        ctx.unverifiable('R-WITNESS', 'witness', ','.join(prefixes), 'witness doctests did not run:\n' + out[-1500:])
+    return seen
